@@ -174,7 +174,17 @@ func (s spyTerm) OnWrite(*zapcore.CheckedEntry, []zapcore.Field) { s.rec.add("t:
 //	k<id>{}            → "k<id>"          spy object (constant)
 //	k<id>{"v":n}       → "k<id>=n"        mutable marshaler, value at marshal time
 //	n<id>{ … }         → "n<id>{" …       namespace: everything after it is nested
+var c07Pad = strings.Repeat("~", 1500)
+
 func flattenLine(p []byte) (string, []string) {
+	name, out := flattenLineRaw(p)
+	for i := range out {
+		out[i] = strings.Replace(out[i], c07Pad, "", 1)
+	}
+	return name, out
+}
+
+func flattenLineRaw(p []byte) (string, []string) {
 	dec := json.NewDecoder(bytes.NewReader(p))
 	dec.UseNumber()
 	name := ""
@@ -246,7 +256,7 @@ func describeFields(fs []zapcore.Field) []string {
 		case zapcore.Int64Type:
 			out = append(out, fmt.Sprintf("%s=%d", f.Key, f.Integer))
 		case zapcore.StringType:
-			out = append(out, f.Key+"="+f.String)
+			out = append(out, f.Key+"="+strings.Replace(f.String, c07Pad, "", 1))
 		default:
 			out = append(out, fmt.Sprintf("%s?%d", f.Key, f.Type))
 		}
@@ -316,6 +326,11 @@ func (w *world) field(f fldJ) zapcore.Field {
 	case 2:
 		return zap.Int("i"+strconv.Itoa(f.Key), f.Val)
 	case 3:
+		// values ≥ 1000 stand for LONG strings (1.5 KiB of padding): contexts that outgrow the 1 KiB pooled buffers. The padding
+		// is stripped again wherever a value is described (c07Pad), so model and oracle see "v<val>".
+		if f.Val >= 1000 {
+			return zap.String("s"+strconv.Itoa(f.Key), "v"+strconv.Itoa(f.Val)+c07Pad)
+		}
 		return zap.String("s"+strconv.Itoa(f.Key), "v"+strconv.Itoa(f.Val))
 	}
 	s := &spyObj{key: f.Key, rec: w.rec, ref: f.Ref}
